@@ -157,7 +157,7 @@ where
 
     /// Adds a value to the set.
     ///
-    /// A [HashSetEvent::Set] change event is sent.
+    /// A [HashSetEvent::Set] change event is sent, unless an equal value is already present.
     ///
     /// Returns whether the set did have this value present.
     ///
@@ -165,6 +165,12 @@ where
     /// Panics when [done](Self::done) has been called before.
     pub fn insert(&mut self, value: T) -> bool {
         self.assert_not_done();
+
+        // An equal value that is already present is kept, i.e. the set does not change.
+        if self.hs.contains(&value) {
+            return false;
+        }
+
         self.change.notify();
 
         send_event(&self.tx, &*self.on_err, HashSetEvent::Set(value.clone()));
@@ -362,7 +368,7 @@ where
                 self.complete = true;
             }
             HashSetEvent::Set(v) => {
-                self.hs.insert(v);
+                self.hs.replace(v);
                 if self.hs.len() > self.max_size {
                     return Err(RecvError::MaxSizeExceeded(self.max_size));
                 }
